@@ -32,11 +32,11 @@ Fixpoint is_prefix (p n : name) : bool :=
   | _ :: _, [] => false
   end.
 
-(* bytes.Equal(name[0].Val, LOCALHOST): the component type is not examined by the code *)
-Definition code_localhost (n : name) : bool :=
-  match n with c :: _ => snd c =? 0 | [] => false end.
 (* a name under /localhost: first component is the generic (type 8) component "localhost" *)
 Definition spec_localhost (n : name) : bool :=
+  match n with c :: _ => (fst c =? 8) && (snd c =? 0) | [] => false end.
+(* fw/fw/thread.go isLocalhost: generic first component whose value is LOCALHOST *)
+Definition code_localhost (n : name) : bool :=
   match n with c :: _ => (fst c =? 8) && (snd c =? 0) | [] => false end.
 
 (* ------------------------------------------------------------------------------------------------ faces *)
@@ -163,7 +163,7 @@ Fixpoint put_in (l : list inrec) (r : inrec) : list inrec :=
 
 Definition default_lifetime : N := 4000 * 1000000.
 
-(* basePitEntry.InsertInRecord: a new record takes the Interest's PIT token; an existing record keeps its token *)
+(* basePitEntry.InsertInRecord: the record of the face holds the nonce, times and PIT token of its latest Interest *)
 Definition insert_inrec (now : N) (f nonce : N) (life : option N) (tok : bytes) (e : pite)
   : pite * bool * N :=
   let lt := match life with Some l => l | None => default_lifetime end in
@@ -171,7 +171,7 @@ Definition insert_inrec (now : N) (f nonce : N) (life : option N) (tok : bytes) 
   | None => (set_ins e (pe_ins e ++ [{| ir_face := f; ir_nonce := nonce; ir_at := now; ir_exp := now + lt; ir_tok := tok |}]),
              false, 0)
   | Some r => (set_ins e (put_in (pe_ins e)
-                 {| ir_face := f; ir_nonce := nonce; ir_at := now; ir_exp := now + lt; ir_tok := ir_tok r |}),
+                 {| ir_face := f; ir_nonce := nonce; ir_at := now; ir_exp := now + lt; ir_tok := tok |}),
                true, ir_nonce r)
   end.
 
@@ -457,13 +457,6 @@ Definition allowed_nexthops (fibv : fibtab) (lookup : name) (f : N) (e : pite) :
                    | Some _ => fst h =? f
                    end) (fib_nexthops fibv lookup).
 
-(* NextHopFaceId shortcut: straight to that face (if it exists and the scope allows), with the token the Interest arrived with *)
-Definition nhf_out (fs : list face) (nh : N) (n : name) (hop : option N) (tok : bytes) : list out :=
-  match get_face fs nh with
-  | Some g => if negb (f_local g) && code_localhost n then [] else [mk_interest_out nh n hop tok]
-  | None => []
-  end.
-
 Definition step_interest (s : fw) (now : N) (i : interest) (ch : choice) : result :=
   match get_face (faces s) (i_face i) with
   | None => res s [] true DropNoFace
@@ -495,8 +488,9 @@ Definition step_interest (s : fw) (now : N) (i : interest) (ch : choice) : resul
         let e2 := upd_expiry now e1 in
         match i_nhf i with
         | Some nh =>
-          res (with_dnl (with_pit s (pre ++ e2 :: post)) d1) (nhf_out (faces s) nh (i_name i) hop (i_tok i))
-              (tok_ok && cs_ok) (Pending (pe_tok e2))
+          (* NextHopFaceId: that face alone, through processOutgoingInterest like any other next hop *)
+          let '(e3, os) := send_all (faces s) (tid s) now (i_face i) nonce (i_life i) (i_name i) hop [(nh, 0)] e2 in
+          res (with_dnl (with_pit s (pre ++ e3 :: post)) d1) os (tok_ok && cs_ok) (Pending (pe_tok e3))
         | None =>
           let lookup := match fh with Some h => h | None => i_name i end in
           let allowed := allowed_nexthops (fib s) lookup (i_face i) e2 in
@@ -554,24 +548,16 @@ Definition step_data_thread (s : fw) (now : N) (d : data) (t : option N) : resul
 (* linkServiceBase.dispatchData in front of the thread (fw/face/link-service.go):
    - a 6-byte token selects the thread by its first two bytes; dispatch.GetFWThread accepts id <= len(threads), so
      id = len indexes out of range;
-   - otherwise Data from a local face goes to the threads of HashNameToAllPrefixFwThreads: thread 0 for a name whose
-     first component value is "localhost", else the threads hashed from the prefixes of length 1..len — none for the
-     empty name;
-   - otherwise to the thread hashed from the full name.
-   With one thread every hash selects thread 0; thread selection by hash for more threads is Dispatch.v's subject. *)
-Definition dispatched_nontoken (s : fw) (d : data) : bool :=
-  match get_face (faces s) (d_face d) with
-  | Some g => if f_local g then code_localhost (d_name d) || nonempty (d_name d) else true
-  | None => true
-  end.
-
+   - otherwise Data from a local face goes to the threads hashed from every prefix of its name (length 0..len),
+     Data from a non-local face to the thread hashed from the full name.
+   With one thread every hash selects thread 0 (thread selection for more threads is Dispatch.v's subject). *)
 Definition step_data (s : fw) (now : N) (d : data) : result :=
   match data_token (d_tok d) with
   | Some (th, tk) =>
     if th =? nthreads s then {| r_st := s; r_outs := []; r_ok := true; r_disp := DNone; r_panic := true |}
     else if th =? tid s then step_data_thread s now d (Some tk)
     else res s [] true DNone
-  | None => if dispatched_nontoken s d then step_data_thread s now d None else res s [] true DNone
+  | None => step_data_thread s now d None
   end.
 
 (* ------------------------------------------------------------------------------------------------ timers *)
